@@ -15,7 +15,7 @@ from ..interp import (Interp, State, Num, BoolV, StructV, EnumV, TupleV, RefV, C
 from .common import *
 
 GP = 'synth_utils::glide_processor::GlideProcessor'
-GP_FIELDS = {'min_fc', 'max_fc', 'fs', 'lpf', 'cached_t'}
+GP_FIELDS = {'fs', 'lpf', 'cached_t'}
 DF1 = 'biquad::DirectForm1'
 COEF = 'biquad::coefficients::Coefficients'
 FS_MIN, FS_MAX = 100, 192000
@@ -87,9 +87,11 @@ class Gl:
         """abstract GlideProcessor satisfying the invariant established by new(): limits/fs as in the template,
         filter state and cached_t arbitrary, coefficients arbitrary"""
         gp = copy.deepcopy(template)
-        lpf = gp.get('lpf')
-        if not isinstance(lpf, StructV) or lpf.path != DF1:
-            raise InterpError('GlideProcessor.lpf is not a biquad::DirectForm1 (state must be previous input/output): %r' % (lpf,))
+        lpf = find_lpf(gp)
+        if lpf is None:
+            raise InterpError('GlideProcessor holds no biquad::DirectForm1 (state must be previous input/output): %r' % (gp,))
+        if 'cached_t' not in gp.names:
+            raise InterpError('GlideProcessor.cached_t (anchor of C14: the time currently in effect) is missing: %s' % gp.names)
         for n in ('x1', 'x2', 'y1', 'y2'):
             lpf.fields[lpf.names.index(n)] = float_sym(st, 'lpf.' + n)
         co = lpf.get('coeffs')
@@ -129,17 +131,62 @@ def _f(x):
     return x if x in (INF, -INF) else '%.6g' % float(x)
 
 
-def time_partitions(st, S, max_fc_term, min_fc=Fr(1, 10)):
-    """(name, t term, extra facts) covering t in [0, inf)"""
+N_PARTS = 6
+
+
+def time_partitions(st, S, umax, min_fc):
+    """(name, t term, extra facts) covering t in [0, inf): the cutoff clamp is piecewise in 1/t, so interiors carry
+    strict facts and the two boundary points are separate (constant-like) partitions"""
     parts = []
     parts.append(('t=0', ZERO, []))
-    tau = st.ctx.sym_range('tau', Fr(1, 10 ** 9), 4)
-    parts.append(('0<t<=4/fs', tau * inv_poly(S), []))
-    u = st.ctx.sym_range('u', Fr(1, 10 ** 7), Fr(1, 4))
-    parts.append(('4/fs<=t<=10', inv_poly(u * S), [cmp_term('Ge', u * S, min_fc)]))
-    t3 = st.ctx.sym_range('t_long', 10, INF)
-    parts.append(('t>=10', t3, []))
+    tau = st.ctx.sym_range('tau', Fr(1, 10 ** 9), 1 / umax)
+    parts.append(('0<t<1/max_fc', tau * inv_poly(S), [cmp_term('Lt', tau, 1 / umax), cmp_term('Gt', S * inv_poly(tau), S.scale(umax))]))
+    parts.append(('t=1/max_fc', inv_poly(S).scale(1 / umax), []))
+    u = st.ctx.sym_range('u', Fr(1, 10 ** 7), umax)
+    parts.append(('1/max_fc<t<1/min_fc', inv_poly(u * S), [cmp_term('Gt', u * S, min_fc), cmp_term('Lt', u, umax), cmp_term('Lt', u * S, S.scale(umax))]))
+    parts.append(('t=1/min_fc', Poly.const(1 / min_fc), []))
+    t3 = st.ctx.sym_range('t_long', 1 / min_fc, INF)
+    parts.append(('t>1/min_fc', t3, [cmp_term('Gt', t3, 1 / min_fc)]))
     return parts
+
+
+def limits_from_new(tmpl, ctx, S):
+    """(umax = max_fc/fs, min_fc) by role: umax from the design argument of the constructor's coefficients
+    (tan(pi*max_fc/fs)); min_fc is the documented 0.1 Hz (times above 10 s behave like 10 s)"""
+    lpf = find_lpf(tmpl)
+    if lpf is None:
+        return None, None
+    tans = [a for a in all_atoms_of(lpf.get('coeffs')) if a[0] == 'tan']
+    if len(tans) != 1:
+        return None, None
+    c = tans[0][1].const_value()
+    if c is None or c <= 0:
+        return None, None
+    umax = c / PI32
+    # the constructor keeps the limit itself somewhere in the object as k*fs: use that exact k when it agrees with the design
+    sa = S.term.as_single_atom()
+
+    def walk(v):
+        if isinstance(v, Num):
+            if len(v.term.t) == 1:
+                (m, k), = v.term.t.items()
+                if m == ((sa, 1),) and abs(k - umax) <= umax * Fr(1, 10 ** 5):
+                    return k
+        elif isinstance(v, StructV) and v.path != DF1:
+            for f in v.fields:
+                r = walk(f)
+                if r is not None:
+                    return r
+        return None
+    exact = walk(tmpl)
+    return (exact if exact is not None else umax), facts_f32(0.1)
+
+
+def find_lpf(gp):
+    for f in gp.fields:
+        if isinstance(f, StructV) and f.path == DF1:
+            return f
+    return None
 
 
 def check_glide(res, facts, prop):
@@ -155,13 +202,15 @@ def check_glide(res, facts, prop):
         ctx0 = o.ctx
     if tmpl is None:
         return
-    max_fc = tmpl.get('max_fc').term
-    min_fc = tmpl.get('min_fc').term
-    fsv = tmpl.get('fs')
-    res.ob('R-GLIDE', 'new(): limits', min_fc == Poly.const(facts_f32(0.1)) and fsv.fields[0].term == S.term,
-           'min_fc = %r, fs = %r, max_fc = %r' % (min_fc, fsv, max_fc), where_new, key='R-GLIDE:new-limits')
+    umax, min_fc = limits_from_new(tmpl, ctx0, S)
+    res.ob('R-GLIDE', 'new(): fastest setting readable from the constructor design (tan(pi*max_fc/fs))', umax is not None,
+           'constructor coefficients %r' % (find_lpf(tmpl),), where_new, key='R-GLIDE:new-limits')
+    if umax is None:
+        return
+    max_fc = S.term.scale(umax)
+    res.extra['max_fc_over_fs'] = float(umax)
     if prop == 'C13':
-        lpf0 = tmpl.get('lpf')
+        lpf0 = find_lpf(tmpl)
         if isinstance(lpf0, StructV) and lpf0.path == DF1:
             coefficient_obligations(res, 'new()', lpf0.get('coeffs'), ctx0, where_new)
             zero_state = all(lpf0.get(n).term == ZERO for n in ('x1', 'x2', 'y1', 'y2'))
@@ -173,7 +222,7 @@ def check_glide(res, facts, prop):
     where = where_of(facts, GP + '::set_time')
     n = 0
     n_honoured = 0
-    for pi in range(4):
+    for pi in range(N_PARTS):
         it = Interp(facts)
         st = State()
         st.ctx = ctx0.copy()
@@ -182,7 +231,7 @@ def check_glide(res, facts, prop):
         except InterpError as e:
             res.ob('R-GLIDE', 'set_time', False, str(e), where, key='R-GLIDE:structure')
             return
-        pname, tterm, facts_ = time_partitions(st, S.term, max_fc, min_fc.const_value() or Fr(1, 10))[pi]
+        pname, tterm, facts_ = time_partitions(st, S.term, umax, min_fc)[pi]
         for f in facts_:
             st.ctx.assume(f)
         pre = copy.deepcopy(gp)
@@ -217,7 +266,7 @@ def check_glide(res, facts, prop):
                            'cached_t after an honoured call = %r, expected t' % (post.get('cached_t'),), where, key='R-DEADBAND:cached:' + pname)
             if honoured:
                 n_honoured += 1
-                lpf1 = post.get('lpf')
+                lpf1 = find_lpf(post)
                 co = lpf1.get('coeffs')
                 state_ch = [c for c in ch if c.startswith('lpf.') and not c.startswith('lpf.coeffs')]
                 other = [c for c in ch if not c.startswith('lpf.') and c != 'cached_t']
@@ -243,8 +292,8 @@ def check_glide(res, facts, prop):
                            'design argument(s) %s; expected tan(pi*f0/fs) with pi*f0/fs = %r' % ([repr(a[1]) for a in tans], want), where, key='R-DEADBAND:cutoff:' + pname)
     if prop == 'C14':
         response_lemma(res)
-    res.floor('set_time_outcomes', n, 8)
-    res.floor('set_time_honoured', n_honoured, 4)
+    res.floor('set_time_outcomes', n, 12)
+    res.floor('set_time_honoured', n_honoured, 6)
     # C13: the recurrence itself; C14: premise of the response lemma
     check_process(res, facts, gl, tmpl, ctx0)
 
@@ -303,9 +352,9 @@ PI32 = facts_f32(math.pi)
 def expected_tan_arg(pname, S, tterm, max_fc):
     """pi * f0 / fs per partition (f32 constant pi as the dependency uses it)"""
     two_pi = PI32 * 2
-    if pname in ('t=0', '0<t<=4/fs'):
+    if pname in ('t=0', '0<t<1/max_fc', 't=1/max_fc'):
         f0 = max_fc
-    elif pname == '4/fs<=t<=10':
+    elif pname == '1/max_fc<t<1/min_fc':
         f0 = inv_poly(tterm)
     else:
         f0 = Poly.const(facts_f32(0.1))
@@ -334,7 +383,7 @@ def check_process(res, facts, gl, tmpl, ctx0):
     outs, cell = run_method(it, st, GP + '::process', gp, [x])
     res.absorb(it)
     where = where_of(facts, GP + '::process')
-    l0 = pre.get('lpf')
+    l0 = find_lpf(pre)
     c = l0.get('coeffs')
     g = lambda n: c.get(n).term
     s = lambda n: l0.get(n).term
@@ -344,7 +393,7 @@ def check_process(res, facts, gl, tmpl, ctx0):
         res.ob('R-GLIDE', 'process: y = b0*x + b1*x1 + b2*x2 - a1*y1 - a2*y2', ok, 'process returns %r' % (o.ret,), where, key='R-GLIDE:recurrence')
         if o.status != 'returned':
             continue
-        l1 = o.cells[cell].get('lpf')
+        l1 = find_lpf(o.cells[cell])
         ok2 = l1.get('x1').term == x.term and l1.get('x2').term == s('x1') and l1.get('y1').term == exp and l1.get('y2').term == s('y1') and same(l1.get('coeffs'), c)
         res.ob('R-GLIDE', 'process: state = (previous input, previous output)', ok2, 'state after process: %r' % (l1,), where, key='R-GLIDE:state-shift')
         ch = [x_ for x_ in spec_fields_changed(pre, o.cells[cell], GP_FIELDS) if not x_.startswith('lpf.')]
